@@ -459,8 +459,12 @@ void run_c11(const std::vector<std::vector<std::string>>& cases, vt::Rng& rng)
          Built b = build(q);
          if (!b.exc.empty()) { exc = b.exc; break; }
          if (b.model.get_problems().have_problem()) { exc = "problem"; break; }
+         std::vector<std::string> thrown;
+         const NV res = vm::mssm_results(b.model, &thrown);
+         // a function that throws (e.g. the spectrum with tree-level Yukawa couplings has a tachyon) reports a problem
+         if (!thrown.empty()) { exc = "problem:" + thrown.front(); break; }
          vt::Ev ev("Point");
-         ev.str("case", id).str("sig", sig).i("di", k++).num("d", d).num("m", p0 * (1 + d)).raw("v", vm::named_json(vm::mssm_results(b.model)));
+         ev.str("case", id).str("sig", sig).i("di", k++).num("d", d).num("m", p0 * (1 + d)).raw("v", vm::named_json(res));
          ev.emit();
       }
       vt::Ev("PathEnd").str("case", id).str("sig", sig).str("exc", exc).emit();
